@@ -8,6 +8,7 @@ import (
 	"go/token"
 	"go/types"
 	"sort"
+	"strings"
 
 	"golang.org/x/tools/go/ssa"
 )
@@ -261,6 +262,28 @@ func (f *Frame) val(v ssa.Value) Value {
 	return Value{T: vc.freshConst("undef", vc.env.SortOf(v.Type()))}
 }
 
+// boundMethodOf returns the method behind a bound-method wrapper ($bound), or nil.
+func boundMethodOf(fn *ssa.Function) *types.Func {
+	if !strings.HasPrefix(fn.Synthetic, "bound method wrapper") {
+		return nil
+	}
+	m, _ := fn.Object().(*types.Func)
+	return m
+}
+
+// boundTag: code of the bound method values of one method (stable per method, independent of the wrapper object).
+func (vc *VC) boundTag(full string) int {
+	if vc.boundTags == nil {
+		vc.boundTags = map[string]int{}
+	}
+	if t, ok := vc.boundTags[full]; ok {
+		return t
+	}
+	t := 2000000 + len(vc.boundTags)
+	vc.boundTags[full] = t
+	return t
+}
+
 func (vc *VC) fnTag(fn *ssa.Function) int {
 	if t, ok := vc.fnTags[fn]; ok {
 		return t
@@ -502,11 +525,17 @@ func (f *Frame) execInstr(st *State, in ssa.Instruction) *State {
 	case *ssa.MakeClosure:
 		fn := x.Fn.(*ssa.Function)
 		id := vc.freshConst("clo."+fn.Name(), SInt)
-		vc.assumeIn(st, And(Eq(App(SInt, "fn_code", id), IntLit(int64(vc.fnTag(fn)))), Not(Eq(id, IntLit(0)))))
 		var bs []Value
 		for _, b := range x.Bindings {
 			bs = append(bs, f.val(b))
 		}
+		code := vc.fnTag(fn)
+		if m := boundMethodOf(fn); m != nil && len(bs) == 1 && bs[0].T.Sort == SInt {
+			// a bound method value x.M: identified by the method and the receiver it is bound to
+			code = vc.boundTag(m.FullName())
+			vc.assumeIn(st, Eq(App(SInt, "fn_recv", id), bs[0].T))
+		}
+		vc.assumeIn(st, And(Eq(App(SInt, "fn_code", id), IntLit(int64(code))), Not(Eq(id, IntLit(0)))))
 		f.regs[x] = Value{T: id, Fn: fn, Bindings: bs}
 		if cc := vc.p.contractFor(fn); cc != nil && len(cc.CapReq) > 0 {
 			// the closure's assumptions about captured variables must hold where it is created
